@@ -19,7 +19,9 @@ def main():
         rule='per document: every subset of spine ids (<= 16), <= 16 subsets of spine types, 6 id x type combinations, spine_types '
              'queries; non-trivial = distinct documents with >= 2 spines and a split',
         mc=[('MC_SpinePaths', 'MC_SpinePaths_c06.cfg', 'MC_SpinePaths(ProjectionLaw)')],
-        populations=[('main', dp.sess_c06, 150, 2500, {})],
+        populations=[('main', dp.sess_c06, 150, 2500, {}),
+                     # cells that look like null tokens but are not: their lines survive every projection that keeps their spine
+                     ('dots', dp.sess_c06, 90, 600, {'dots': True})],
         nontrivial=lambda s: {'multi-spine', 'split'} <= set(s['tags']))
 
 
